@@ -38,10 +38,10 @@ def mixed_shapes():
 def main(tier, seed):
     if tier == "quick":
         shapes = E.curated_shapes()
-        p = dict(nops=3, maxdev=1, bfs_depth=4, probe_every=7)
+        p = dict(nops=3, maxdev=1, bfs_depth=4, probe_every=7, timing_depth=12)
     else:
         shapes = E.curated_shapes() + E.family_shapes()
-        p = dict(nops=4, maxdev=2, bfs_depth=9, probe_every=11)
+        p = dict(nops=4, maxdev=2, bfs_depth=9, probe_every=11, timing_depth=18)
     sigs = sig_shapes() + mixed_shapes()
     return E.run_check(PID, tier, seed, shapes=shapes + sigs, sig_names={s["name"] for s in sigs}, **p)
 
